@@ -22,14 +22,29 @@ def Ch.signed : Ch → Bool
   | .b | .h | .i | .q => true
   | _ => false
 
+/-- native alignment of a member inside a multi-member format (regenerated from the real `calcsize`) -/
+def Ch.align (c : Ch) : Nat := Consts.arraymap_aligns.getD c.idx 1
+
 inductive Fmt
   | fixed                                  -- "x": a `q` holding value * FIXED_BASE
   | arr (big : Bool) (count : Nat) (c : Ch)
+  | mixed (packed : Bool) (big : Bool) (cs : List Ch)   -- several letters; native mode pads members to their alignment
   deriving DecidableEq, Repr, Inhabited
+
+def roundUp (a n : Nat) : Nat := ((n + (a - 1)) / a) * a
+
+/-- where a member starts when the previous one ended at `pos` (relative to the start of the struct) -/
+def memberOff (packed : Bool) (c : Ch) (pos : Nat) : Nat := if packed then pos else roundUp c.align pos
+
+/-- `calcsize`: end of the last member; no trailing padding -/
+def endM (packed : Bool) : Nat → List Ch → Nat
+  | pos, [] => pos
+  | pos, c :: cs => endM packed (memberOff packed c pos + c.size) cs
 
 def fmtsize : Fmt → Nat
   | .fixed => Consts.arraymap_fmtsize_x
   | .arr _ n c => n * c.size
+  | .mixed packed _ cs => endM packed 0 cs
 
 def chOfChar : Char → Option Ch
   | 'b' => some .b | 'B' => some .B | 'h' => some .h | 'H' => some .H
@@ -42,20 +57,35 @@ def digitsVal : List Char → Option Nat
       let a ← acc
       if '0' ≤ c ∧ c ≤ '9' then some (a * 10 + (c.toNat - 48)) else none) (some 0)
 
-/-- the struct format strings the model covers (little-endian host: native = little) -/
+/-- `[count]letter` groups, counts expanded -/
+def parseGroups : List Char → Option Nat → Option (List Ch)
+  | [], none => some []
+  | [], some _ => none
+  | c :: r, acc =>
+    if '0' ≤ c ∧ c ≤ '9' then parseGroups r (some (acc.getD 0 * 10 + (c.toNat - 48)))
+    else do
+      let ch ← chOfChar c
+      let rest ← parseGroups r none
+      pure (List.replicate (acc.getD 1) ch ++ rest)
+
+/-- the struct format strings the model covers (little-endian host: native byte order = little) -/
 def parseFmt (s : String) : Option Fmt :=
   if s = "x" then some .fixed else
   let cs := s.toList
-  let (big, cs) := match cs with
-    | '>' :: r => (true, r) | '!' :: r => (true, r)
-    | '<' :: r => (false, r) | '=' :: r => (false, r) | '@' :: r => (false, r)
-    | r => (false, r)
-  match cs.reverse with
-  | [] => none
-  | c :: revDigits => do
-    let ch ← chOfChar c
-    let n ← if revDigits.isEmpty then some 1 else digitsVal revDigits.reverse
-    pure (.arr big n ch)
+  let (packed, big, cs) := match cs with
+    | '>' :: r => (true, true, r) | '!' :: r => (true, true, r)
+    | '<' :: r => (true, false, r) | '=' :: r => (true, false, r) | '@' :: r => (false, false, r)
+    | r => (false, false, r)
+  if (cs.filter fun c => !('0' ≤ c ∧ c ≤ '9')).length = 1 then
+    match cs.reverse with
+    | [] => none
+    | c :: revDigits => do
+      let ch ← chOfChar c
+      let n ← if revDigits.isEmpty then some 1 else digitsVal revDigits.reverse
+      pure (.arr big n ch)
+  else do
+    let ms ← parseGroups cs none
+    if ms.isEmpty then none else pure (.mixed packed big ms)
 
 /-! ## declarations and `ArrayMap.collect` -/
 
@@ -121,8 +151,7 @@ def sumSizes : List Triple → Nat
   | [] => 0
   | t :: ts => t.size + sumSizes ts
 
-/-- `((position + 7) // 8) * 8` with the regenerated granularity -/
-def roundUp (a n : Nat) : Nat := ((n + (a - 1)) / a) * a
+/- `((position + 7) // 8) * 8` is `roundUp` with the regenerated granularity -/
 
 def total (ts : List Triple) : Nat := roundUp Consts.arraymap_align (sumSizes (sortDesc ts))
 
@@ -188,11 +217,34 @@ def packElems (big : Bool) (c : Ch) : List Int → Option (List UInt8)
     | some a, some r => some (a ++ r)
     | _, _ => none
 
+/-- members one after the other, zero bytes in the alignment gaps (what `struct.pack` emits) -/
+def packM (packed big : Bool) : Nat → List Ch → List Int → Option (List UInt8)
+  | _, [], [] => some []
+  | pos, c :: cs, v :: vs =>
+    match encElem big c v, packM packed big (memberOff packed c pos + c.size) cs vs with
+    | some e, some r => some (zeros (memberOff packed c pos - pos) ++ e ++ r)
+    | _, _ => none
+  | _, _, _ => none
+
+/-- members read at their offsets from the start of the struct's bytes `bs` -/
+def decM (packed big : Bool) : Nat → List Ch → List UInt8 → List Int
+  | _, [], _ => []
+  | pos, c :: cs, bs =>
+    decElem big c (slice bs (memberOff packed c pos) (memberOff packed c pos + c.size))
+      :: decM packed big (memberOff packed c pos + c.size) cs bs
+
+/-- offset (from the start of the variable) and letter of member `j` -/
+def memberAt (packed : Bool) : Nat → List Ch → Nat → Option (Nat × Ch)
+  | _, [], _ => none
+  | pos, c :: _, 0 => some (memberOff packed c pos, c)
+  | pos, c :: cs, j + 1 => memberAt packed (memberOff packed c pos + c.size) cs j
+
 /-- `pack(fmt, *value)`; for `x` the argument is the scaled integer `int(value * FIXED_BASE)` packed as `q` -/
 def pack : Fmt → List Int → Option (List UInt8)
   | .fixed, [v] => encElem false .q v
   | .fixed, _ => none
   | .arr big n c, vs => if vs.length = n then packElems big c vs else none
+  | .mixed packed big cs, vs => packM packed big 0 cs vs
 
 def unpackElems (big : Bool) (c : Ch) : Nat → List UInt8 → List Int
   | 0, _ => []
@@ -201,6 +253,7 @@ def unpackElems (big : Bool) (c : Ch) : Nat → List UInt8 → List Int
 def decode : Fmt → List UInt8 → List Int
   | .fixed, bs => [decElem false .q (bs.take Ch.q.size)]
   | .arr big n c, bs => unpackElems big c n bs
+  | .mixed packed big cs, bs => decM packed big 0 cs bs
 
 /-- `unpack_from(fmt, data, pos)`; `struct.error` when the buffer is too short -/
 def unpack (fmt : Fmt) (data : List UInt8) (pos : Nat) : Except Err (List Int) :=
@@ -291,6 +344,8 @@ inductive Op
   | pySet (pid name : Nat) (vs : List Int)
   | progStore (pid name : Nat) (v : Int)
   | progCopy (spid sname dpid dname : Nat)
+  | progStoreM (pid name j : Nat) (v : Int)             -- store into member `j` of a multi-member variable
+  | progCopyM (spid sname j dpid dname : Nat)           -- load member `j`, store it into a single variable
   deriving Repr, Inhabited
 
 def St.store (s : St) (pid name : Nat) (v : Int) : Except Err St := do
@@ -298,6 +353,17 @@ def St.store (s : St) (pid name : Nat) (v : Int) : Except Err St := do
   match d.fmt.single with
   | none => .error .struct
   | some (big, c) => pure (s.setArray d.map (← progStore data big c pos v))
+
+/-- member `j` of the variable: map bytes, absolute position, byte order and letter
+(the program adds the member's natural offset to the variable's address) -/
+def St.locateM (s : St) (pid name j : Nat) : Except Err (Decl × List UInt8 × Nat × Bool × Ch) := do
+  let (d, data, pos) ← s.locate pid name
+  match d.fmt with
+  | .mixed packed big cs =>
+    match memberAt packed 0 cs j with
+    | some (off, c) => pure (d, data, pos + off, big, c)
+    | none => .error .struct
+  | _ => .error .struct
 
 def St.step (s : St) : Op → Except Err St
   | .pySet pid name vs => do
@@ -309,6 +375,12 @@ def St.step (s : St) : Op → Except Err St
     match sd.fmt.single with
     | none => .error .struct
     | some (big, c) => s.store dpid dname (← progLoad sdata big c spos)
+  | .progStoreM pid name j v => do
+    let (d, data, mpos, big, c) ← s.locateM pid name j
+    pure (s.setArray d.map (← progStore data big c mpos v))
+  | .progCopyM spid sname j dpid dname => do
+    let (_, data, mpos, big, c) ← s.locateM spid sname j
+    s.store dpid dname (← progLoad data big c mpos)
 
 def St.pyGet (s : St) (pid name : Nat) : Except Err (List Int) := do
   let (d, data, pos) ← s.locate pid name
